@@ -18,6 +18,9 @@ CHECKS = {
  "C08": ("exploration", "E1", "bounded-exhaustive enumeration of permutations / axes / (start,end,step) triples / index assignments / target shapes on the real operators vs index-formula reference",
          "Transpose over all permutations (and invalid perms), Concat over 1..3 inputs x every axis x independent extents, Slice over every (start,end,step) in [-dim-2,dim+2] U {INT_MIN,INT_MAX} per axis with all spellings of axes/steps, Gather over every axis and ALL in-range index assignments for index ranks 0..2, Expand over every (input,target) shape pair; result must equal the ONNX index formula bit for bit, or be refused where the statement allows; invalid requests must be refused; never a panic. Plus depth-2 operator-instance histories.",
          E1NOTE, "DESIGN.md §3 C08"),
+ "C09": ("exploration", "E1", "bounded-exhaustive enumeration of axes / axes subsets / keepdims / tie and NaN placements / magnitude tuples on the real operators vs loop reference",
+         "ArgMax over every axis x keepdims x every value tuple over {1,2,3,NaN} along the axis (all tie and NaN positions), ReduceMax/Min over every axes subset in three spellings (+absent, duplicate, out of range) x keepdims, Softmax/LogSoftmax over every axis x every magnitude tuple over {0,+-1,...,+-max}^n (n<=3); first-occurrence indices, exact shapes, int64 type, non-NaN finite normalised outputs vs a stable float64 reference. Plus depth-2 operator-instance histories.",
+         E1NOTE, "DESIGN.md §3 C09"),
 }
 NA_REASON = "check not built yet in this session (see DESIGN.md §7 order of construction); decidable by bounded exhaustive exploration, to be claimed once its explorer exists"
 def main():
